@@ -39,7 +39,7 @@ PROPS = {
                     "(AsyncReadInPoller) it is neither proved nor judged by an oracle (hlife checks only data-after-close), and a stale "
                     "HANG-UP event on a reused descriptor number (it would close the new conn) is not exercised",
             "technique": "Lean 4 proof (inductive invariant over a small-step transition system, decreasing measure) + differential correspondence"},
-        "lean": ["NbioVerif.Properties.C02", srcgen.BRIDGE_CONN], "drivers": ["gatedrv"], "harness": ["hread"],
+        "lean": ["NbioVerif.Properties.C02", srcgen.BRIDGE_CONN, "NbioVerif.Lemmas.SrcBridgeLife"], "drivers": ["gatedrv"], "harness": ["hread"],
         "facts": [srcgen.src_facts],
         "runs": [READ_RUN],
         "oracles": ["c02-"], "cs": cs_life.C02_CS,
@@ -90,7 +90,7 @@ PROPS = {
                     "the wait-group ghost is not an observable of the correspondence; it is tied only through 'Stop returns' and Go's "
                     "negative-counter panic",
             "technique": "Lean 4 proof (inductive invariant over a small-step transition system) + differential correspondence"},
-        "lean": ["NbioVerif.Properties.C03", srcgen.BRIDGE_CONN], "drivers": ["lifedrv"], "harness": ["hlife"],
+        "lean": ["NbioVerif.Properties.C03", srcgen.BRIDGE_CONN, "NbioVerif.Lemmas.SrcBridgeLife"], "drivers": ["lifedrv"], "harness": ["hlife"],
         "facts": [srcgen.src_facts],
         "runs": [LIFE_RUN],
         "oracles": ["c03-"], "cs": cs_life.C03_CS,
